@@ -115,32 +115,36 @@ def measure (U : Uni) (s : Bytes) : Except String Nat :=
   | .error m => .error m
   | .ok its => .ok (sumWidths U its)
 
-/-- Inner `for g in t.graphemes(true)` loop of `truncate_str_impl`; returns (used, result).
-`fill` is `fill2w`. `.error` = the `debug_assert!` on a grapheme wider than 2 (debug builds). -/
+/-- Inner `for g in t.graphemes(true)` loop of `truncate_str_impl`; returns (used, result, cut)
+where `cut` = the loop ended with `break`. `fill` is `fill2w`. `.error` = the `debug_assert!` on a
+grapheme wider than 2 (debug builds). -/
 def takeGraphemes (U : Uni) (dw : Nat) (fill : Option Bytes) :
-    List Bytes → Nat → Bytes → Except String (Nat × Bytes)
-  | [], used, acc => .ok (used, acc)
+    List Bytes → Nat → Bytes → Except String (Nat × Bytes × Bool)
+  | [], used, acc => .ok (used, acc, false)
   | g :: gs, used, acc =>
     let w := U.width g
     if used + w > dw then
       match fill with
-      | none => .ok (used, acc)
+      | none => .ok (used, acc, true)
       | some c =>
-        if w = 2 ∧ used < dw then .ok (used, acc ++ c)
+        if w = 2 ∧ used < dw then .ok (used, acc ++ c, true)
         else if w > 2 then .error "debug_assert: strange grapheme width"
-        else .ok (used, acc)
+        else .ok (used, acc, true)
     else takeGraphemes U dw fill gs (used + w) (acc ++ g)
 
-/-- Outer `for (t, is_ansi) in items` loop. -/
+/-- Outer `for (t, is_ansi) in items` loop. On the unchanged tree the `break` leaves the inner
+loop only, so text of later elements is still appended when it fits; with the proposed repair
+(`Generated.truncStopsAfterCut`) later text is skipped once a grapheme did not fit. -/
 def truncItems (U : Uni) (dw : Nat) (fill : Option Bytes) :
-    List (Bytes × Bool) → Nat → Bytes → Except String Bytes
-  | [], _, acc => .ok acc
-  | (t, ansi) :: r, used, acc =>
-    if ansi then truncItems U dw fill r used (acc ++ t)
+    List (Bytes × Bool) → Nat → Bytes → Bool → Except String Bytes
+  | [], _, acc, _ => .ok acc
+  | (t, ansi) :: r, used, acc, cut =>
+    if ansi then truncItems U dw fill r used (acc ++ t) cut
+    else if Generated.truncStopsAfterCut && cut then truncItems U dw fill r used acc cut
     else
       match takeGraphemes U dw fill (U.graphemes t) used acc with
       | .error m => .error m
-      | .ok (used', acc') => truncItems U dw fill r used' acc'
+      | .ok (used', acc', cut') => truncItems U dw fill r used' acc' cut'
 
 /-- `truncate_str_impl(s, display_width, "", fill2w)` -/
 def truncateNoTail (U : Uni) (s : Bytes) (dw : Nat) (fill : Option Bytes) : Except String Bytes :=
@@ -148,7 +152,7 @@ def truncateNoTail (U : Uni) (s : Bytes) (dw : Nat) (fill : Option Bytes) : Exce
   | .error m => .error m
   | .ok its =>
     if U.width (joinTexts its) ≤ dw then .ok s
-    else truncItems U dw fill its 0 []
+    else truncItems U dw fill its 0 [] false
 
 /-- `truncate_str_impl(s, display_width, tail, fill2w)` -/
 def truncate (U : Uni) (s : Bytes) (dw : Nat) (tail : Bytes) (fill : Option Bytes) :
@@ -164,7 +168,7 @@ def truncate (U : Uni) (s : Bytes) (dw : Nat) (tail : Bytes) (fill : Option Byte
         match measure U resultTail with
         | .error m => .error m
         | .ok used =>
-          match truncItems U dw fill its used [] with
+          match truncItems U dw fill its used [] false with
           | .error m => .error m
           | .ok r => .ok (r ++ resultTail)
 
